@@ -302,6 +302,9 @@ def do_xmlattr(
         if value is None or isinstance(value, Undefined):
             continue
 
+        if not key:
+            raise ValueError("Attribute name must not be empty.")
+
         if _attr_key_re.search(key) is not None:
             raise ValueError(f"Invalid character in attribute name: {key!r}")
 
